@@ -369,6 +369,13 @@ def run_history(comps, rng, rec, mon, n_utts):
                 comp.finalize()
             elif kind == "full":
                 comp.compute_full(x)
+                if u % 2 == 1 and N:
+                    # the caller reads every recording into one buffer of its own: the same array object, other samples
+                    buf = np.array(x)
+                    comp.compute_full(buf)
+                    buf[...] = gen.signal(rng, N, "noise", buf.dtype)
+                    comp.compute_full(buf)
+                    rec.count("compute_full_on_a_buffer_refilled_in_place")
             else:
                 cs = int(rng.choice([1, 2, 3, 7, max(1, comp.frame_shift), comp.frame_length, comp.frame_length + 1, 1024]))
                 if rng.random() < 0.5:
@@ -558,6 +565,32 @@ def run_case(case, rec, mon=None):
                     o.finalize()
                 except Exception:
                     pass
+    if case["idx"] % 25 == 3:
+        # a computer written by a user against the documented base class (vf/userbank.py), which inherits compute_full: an attempt to
+        # start something else mid-utterance is refused with ValueError and disturbs nothing
+        from .. import userbank
+
+        UC = userbank.user_computer_class()
+        try:
+            uc = UC({"name": "vfrealcos", "num_filts": 3, "sampling_rate": 1000})
+            x1, x2 = gen.signal(rng, 40, "noise"), gen.signal(rng, 25, "noise")
+            want = np.asarray(UC(uc.bank).compute_full(np.concatenate([x1[:17], x1[17:]])))
+            uc.compute_chunk(x1[:17])
+            rec.ev()
+            rec.count("user_defined_computers_asked_for_compute_full_mid_utterance")
+            try:
+                uc.compute_full(x2)
+                mon.v("a user-defined computer's inherited compute_full mid-utterance did not raise ValueError", check="guard", op="compute_full", kind="user", fl=1, fs=1, style="causal", kaldi=False)
+            except ValueError:
+                pass
+            if not uc.started:
+                mon.v("a user-defined computer is no longer started after a refused compute_full", check="started", kind="user", fl=1, fs=1, style="causal", kaldi=False)
+            uc.compute_chunk(x1[17:])
+            got = np.asarray(uc.finalize())
+            if got.shape != want.shape or not np.allclose(got, want, rtol=1e-12, atol=0):
+                mon.v("a user-defined computer's utterance was disturbed by a refused compute_full", check="twin", kind="user", fl=1, fs=1, style="causal", kaldi=False)
+        except Exception as e:
+            rec.note("user-defined computer scenario raised %r" % (e,))
     if comps and case["idx"] % 5 == 2:
         try:
             run_neighbours(comps[0], cfg, rng, rec, mon)
